@@ -288,6 +288,8 @@ class Interp:
         return z3.BoolVal(b) if isinstance(b, bool) else b
 
     def nonempty(self, v):
+        if isinstance(v, (SetV, SymSet)) and v.ety == ANY:
+            return False
         if isinstance(v, ListV):
             if v.known is not None:
                 return len(v.known) > 0
@@ -572,6 +574,8 @@ class Interp:
         if isinstance(s, SymSet):
             return s.arr if s.arr is not None else EmptyChi()
         if isinstance(s, SetV):
+            if s.ety == ANY:
+                return EmptyChi()
             return self.set_arr(s)[1][s.ref]
         if isinstance(s, DictV):
             return self.dict_has(s)[1][s.ref]
@@ -595,6 +599,8 @@ class Interp:
 
     def set_eq(self, a, b):
         ety = a.ety if a.ety != ANY else b.ety
+        if ety == ANY:
+            return True
         x = z3.Const('x!seq', sort_of(ety))
         return z3.ForAll([x], self.set_chi(a)[x] == self.set_chi(b)[x])
 
@@ -741,6 +747,8 @@ class Interp:
         if isinstance(coll, ListV) and coll.known is not None:
             return self.disj([self.eq(v, it) for it in coll.known])
         ety = self.elem_type(coll)
+        if ety == ANY:
+            return False
         if isinstance(v, SV) and isinstance(v.ty, TOpt) and not isinstance(ety, TOpt):
             return z3.And(z3.Not(self.opt_is_none(v)), self.member_term(coll, self.opt_payload(v)))
         if v is None and not isinstance(ety, TOpt):
@@ -863,6 +871,10 @@ class InterpExpr:
                 if imp[2] in self.ct.classes:
                     return ClassV(imp[2])
                 return self.external_name(src, imp[2])
+            for sm in getattr(mod, 'star_imports', []):
+                m2 = self.ct.modules.get(sm)
+                if m2 is not None and (name in m2.classes or name in m2.functions or name in m2.assigns or name in m2.imports):
+                    return self.module_name(sm, name)
         if name in self.ct.classes and modname.startswith('contracts'):
             return ClassV(name)
         if modname.startswith('contracts'):
@@ -1724,8 +1736,24 @@ class InterpStmt:
     def st_Global(self, s, fr):
         pass
 
+    def _type_fresh_set(self, v, s, fr):
+        """`x = set()` : element type from the return annotation when the function returns x"""
+        if not (isinstance(v, SetV) and v.ety == ANY and fr.fi is not None and len(s.targets) == 1
+                and isinstance(s.targets[0], ast.Name)):
+            return
+        name = s.targets[0].id
+        returns_it = any(isinstance(n, ast.Return) and isinstance(n.value, ast.Name) and n.value.id == name
+                         for n in ast.walk(fr.fi.node))
+        if returns_it:
+            rty = self.ts.return_type(fr.fi)
+            if isinstance(rty, TSet) and rty.t != ANY:
+                v.ety = rty.t
+                nme, a = self.set_arr(v)
+                self.heap.set(nme, z3.Store(a, v.ref, z3.K(sort_of(v.ety), z3.BoolVal(False))))
+
     def st_Assign(self, s, fr):
         v = self.ev(s.value, fr)
+        self._type_fresh_set(v, s, fr)
         for t in s.targets:
             self.bind_target(t, v, fr, s.lineno)
         self.reg.ghost_after(self, s, fr)
@@ -1738,6 +1766,10 @@ class InterpStmt:
                 ty = self.ts.ann_to_type(s.annotation, fr.module, fr.defcls)
                 if ty != ANY and isinstance(ty, (TList, TDict, TSet)):
                     v = self.materialize(v, ty) if not isinstance(ty, TSet) else v
+                if isinstance(v, SetV) and v.ety == ANY and isinstance(ty, TSet) and ty.t != ANY:
+                    v.ety = ty.t
+                    nme, a = self.set_arr(v)
+                    self.heap.set(nme, z3.Store(a, v.ref, z3.K(sort_of(v.ety), z3.BoolVal(False))))
             self.bind_target(s.target, v, fr, s.lineno)
 
     def st_AugAssign(self, s, fr):
